@@ -483,3 +483,39 @@ Definition prop_case (t : tcase) : bool :=
   | CEng self ops os => eng_prop cfg_default self [] ops os
   | CBoot c ops => boot_prop c [] ops
   end.
+
+(* ================================================================== *)
+(* the address text seen by the gate (DhtCoreEngine::add_node)         *)
+(* text = list of byte values; std's parsers/printers are parameters   *)
+(* ================================================================== *)
+(* address.split(" (").next(): the text before the first " (" *)
+Fixpoint strip_suffix (s : list N) : list N :=
+  match s with
+  | [] => []
+  | ch :: t =>
+      if (ch =? 32) && (match t with d :: _ => d =? 40 | [] => false end) then [] else ch :: strip_suffix t
+  end.
+
+Section AddrText.
+  Variable parse_sock : list N -> option (ipaddr * N).   (* str::parse::<SocketAddr> *)
+  Variable parse_ip : list N -> option ipaddr.            (* str::parse::<IpAddr> *)
+  Variable show_sock : ipaddr -> N -> list N.             (* SocketAddr Display *)
+  Variable show_ip : ipaddr -> list N.                    (* IpAddr Display *)
+  Variable words : ipaddr -> N -> list N.                 (* four-word text *)
+  Variable garbage : list N.
+
+  Definition gate_text (s : list N) : option ipaddr :=
+    let clean := strip_suffix s in
+    match parse_sock clean with
+    | Some (ip, _) => Some ip
+    | None => parse_ip clean
+    end.
+  (* the text of each address form *)
+  Definition render (f : aform) : list N :=
+    match f with
+    | FBare ip => show_ip ip
+    | FSock ip p => show_sock ip p
+    | FDisplay ip p w => show_sock ip p ++ (if w then [32; 40] ++ words ip p ++ [41] else [])
+    | FGarbage => garbage
+    end.
+End AddrText.
